@@ -11,6 +11,9 @@ pub mod c09;
 pub mod c10;
 pub mod c11;
 pub mod c12;
+pub mod c13;
+pub mod c14;
+pub mod c15;
 pub mod c16;
 pub mod c17;
 pub mod statespace;
@@ -39,6 +42,9 @@ pub fn run(id: &str, reg: &dyn Registry, ctx: &Ctx) -> Option<Outcome> {
         "C10" => Some(c10::run(reg, ctx)),
         "C11" => Some(c11::run(reg, ctx)),
         "C12" => Some(c12::run(reg, ctx)),
+        "C13" => Some(c13::run(reg, ctx)),
+        "C14" => Some(c14::run(reg, ctx)),
+        "C15" => Some(c15::run(reg, ctx)),
         "C16" => Some(c16::run(reg, ctx)),
         "C17" => Some(c17::run(reg, ctx)),
         _ => None,
